@@ -96,6 +96,9 @@ func (vc *VC) bindsObligations() error {
 		var sb strings.Builder
 		sb.WriteString("; obligation: " + vc.key + "/binds[" + c.Src + "]\n; source: two runs differing only in " + c.Src + " return different results\n")
 		sb.WriteString(smtPrelude)
+		for _, d := range vc.alignmentDefs() {
+			sb.WriteString(d + "\n")
+		}
 		for _, d := range vc.decls {
 			sb.WriteString(d + "\n")
 		}
